@@ -205,6 +205,49 @@ class CFG:
         r = self.reachable([m for m, _ in self.succ[start]], blocked=set(through))
         return not (r & exits)
 
+    def defined_names(self, node: Node) -> Set[str]:
+        """local names (re)bound by executing this node"""
+        a = node.ast
+        out: Set[str] = set()
+        if a is None:
+            return out
+        if node.kind == "iter" and isinstance(node.stmt, (ast.For, ast.AsyncFor)):
+            out |= {t.id for t in ast.walk(node.stmt.target) if isinstance(t, ast.Name)}
+            return out
+        if node.kind == "stmt":
+            if isinstance(a, ast.Assign):
+                for t in a.targets:
+                    out |= {x.id for x in ast.walk(t) if isinstance(x, ast.Name) and isinstance(x.ctx, ast.Store)}
+            elif isinstance(a, (ast.AnnAssign, ast.AugAssign)):
+                if getattr(a, "value", None) is not None and isinstance(a.target, ast.Name):
+                    out.add(a.target.id)
+            elif isinstance(a, (ast.Import, ast.ImportFrom)):
+                out |= {(x.asname or x.name.split(".")[0]) for x in a.names}
+            elif isinstance(a, (ast.FunctionDef, ast.ClassDef)):
+                out.add(a.name)
+        for e in ([a] if node.kind in ("test", "assert", "stmt", "return", "iter", "match") else []):
+            for x in ast.walk(e) if not isinstance(e, (ast.FunctionDef, ast.ClassDef)) else []:
+                if isinstance(x, ast.NamedExpr) and isinstance(x.target, ast.Name):
+                    out.add(x.target.id)
+        return out
+
+    def reaching_defs(self, node: Node, name: str) -> List[Node]:
+        """definition nodes of local `name` that reach the *entry* of `node`; the CFG entry is
+        included (as self.entry) when the name may be unbound/parameter there"""
+        out: List[Node] = []
+        seen: Set[Node] = set()
+        todo = [p for p, _ in self.pred[node]]
+        while todo:
+            n = todo.pop()
+            if n in seen:
+                continue
+            seen.add(n)
+            if name in self.defined_names(n) or n is self.entry:
+                out.append(n)
+                continue
+            todo.extend(p for p, _ in self.pred[n])
+        return out
+
     def nodes_of(self, stmt: ast.stmt) -> List[Node]:
         return self.by_stmt.get(id(stmt), [])
 
